@@ -10,6 +10,8 @@
   srv   : server.NewZnThreadServer started through Interpreter.SetMainServer(…).Listen(url) on a loopback port / a unix socket,
           N goroutine clients × M requests over real connections, every request with its own source text and its own expected
           answer (harness op `srv`), in the normal build and under the race detector
+  fileiso: histories of executions through LoadFile with imported custom modules over a directory tree that changes between the
+          executions (props/c16_files.py; harness ops fseq / frace)
 The process model (what is shared) is tied to the source by regenerated facts (Generated/Process.lean)."""
 import os, subprocess, itertools, json
 from concurrent.futures import ThreadPoolExecutor
@@ -24,7 +26,11 @@ RULE = ("iso: every polluter (constructor redefinition of the predefined type an
         "foreign result or race report fails. pgiso: the polluter × probe matrix as HTTP requests through one ZnPlaygroundHandler / one ZnHttpHandler "
         "over one shared interpreter (polluters also inside VarInput texts, malformed JSON, unreadable bodies, syntax errors), every response = "
         "the response to that request alone in a fresh process. srv: ZnThreadServer on a loopback port / unix socket, 16/32 clients × 30/400 "
-        "requests with distinct sources and answers each, plain and under -race. Non-trivial = the sequence contains a polluter that touches something the probe reads.")
+        "requests with distinct sources and answers each, plain and under -race. fileiso: 2–6 executions of main files through LoadFile in one process "
+        "(separate / one shared interpreter) over 1–4 project directories whose modules have the same names and different sources, one project "
+        "nested in another, module and main files rewritten / deleted / broken / repaired between executions, modules importing modules; every "
+        "execution = what the files say at that moment (generator ground truth) = the same step in a brand-new process (sample); the same "
+        "concurrently (8/32 goroutines, own project each), plain and under -race. Non-trivial = the sequence contains a polluter that touches something the probe reads.")
 ASSUMPTIONS = ["data-race freedom in the Go memory model is sampled by the race detector, not proved",
                "pkg/server's handlers call LoadFile/LoadScript(...).Execute on a shared interpreter exactly as the race op does (pkg/server itself needs the Linux pipe hook to compile)"]
 PARTIAL = "the Lean model proves the logical part (nothing mutable is shared; a request runs its own source under every interleaving); scheduler behaviour is runtime"
@@ -414,6 +420,10 @@ def run(ctx):
             ctx.violation('reexec', line, g, want + '   (the program %s alone in a fresh process, three times)' % r)
         ctx.nontriv(line)
     ctx.streams.append({'stream': 'reexec', 'cases': len(rlines)})
+    # ---- fileiso: executions of files with imported custom modules over a changing directory tree (props/c16_files.py) ----
+    if os.environ.get('VERIF_C16_FILES', '1') != '0':
+        from props import c16_files
+        c16_files.stream(ctx, run_under_race_detector)
     # ---- the real handlers and the real server -----------------------------------------------------------------------
     if os.environ.get('VERIF_C16_HANDLERS', '1') != '0':
         pgiso_stream(ctx)
@@ -464,4 +474,9 @@ def replay(ctx, data):
                 break
             a = ctx.run_go(['hseq 1 ' + st], timeout_ms=20000, parallel=False)[0]
             print('  request %d alone in a fresh process: %s | %s' % (i + 1, sg.show(a), a.rpartition(' | ')[2][:120]))
+    if case.startswith('fseq '):
+        f = case.split(' ', 2)
+        a = ctx.run_go(['fseq 2 ' + f[2]], timeout_ms=60000, parallel=False)[0]
+        for i, (x, y) in enumerate(zip(g.split(' ;; '), a.split(' ;; '))):
+            print('  execution %d: %s   in a brand-new process: %s%s' % (i + 1, x, y, '' if x == y else '   <-- differs'))
     print('want:', data.get('spec'))
